@@ -33,7 +33,9 @@ use vpcore::rayon::prelude::*;
 use vpcore::serde_json::{self, Value, json};
 use vpcore::{Ctx, Report, finish, machinery_error};
 use vpe1::enumerate::{AK, Family, VK};
-use vpe1::explore::{SeenSet, Stats, explore, input_vectors};
+use vpe1::enumerate::{EnumState, next_calls, prefixes, walk};
+use vpe1::explore::{SeenSet, Stats, h128, input_vectors};
+use vpe1::prog::{Materialized, Program, materialize};
 
 // =======================================================================================
 // worker
@@ -277,9 +279,10 @@ fn families(thorough: bool) -> Vec<Family> {
     let bits = [VK::Add, VK::Mul, VK::Bits(2), VK::Bits(3)];
     if !thorough {
         vec![
-            fam("bin-k2-c1", &bin, 2, 1, 2, 2, &[1, 2], 0),
-            fam("wide-k2-c1", &wide, 2, 1, 4, 0, &[2], 1),
-            fam("bits-k2-c1", &bits, 2, 1, 2, 1, &[1], 0),
+            fam("bin-k2-c1", &bin, 2, 1, 3, 2, &[0, 1, 2], 0),
+            fam("bin-k2-conn2", &bin, 2, 2, 2, 1, &[2], 0),
+            fam("wide-k2-c1", &wide, 2, 1, 4, 0, &[1, 2], 1),
+            fam("bits-k2-c1", &bits, 2, 1, 2, 2, &[1, 2], 0),
         ]
     } else {
         vec![
@@ -290,6 +293,56 @@ fn families(thorough: bool) -> Vec<Family> {
             fam("wide-k2-wide2", &[VK::MulAdd, VK::Select, VK::Horner], 2, 1, 5, 0, &[2], 2),
         ]
     }
+}
+
+/// Every program of the family, in parallel, WITHOUT subtree pruning: `vpe1::explore::explore`
+/// prunes below a state whose (DAG, handle set) was met before, but the remaining budget of
+/// the family (value calls / wide calls left) is not part of that state, so which subtrees it
+/// drops depends on thread timing and the set of canonical programs varied from run to run.
+/// Here every history is visited; `on_canonical` sees each distinct compiler input (DAG nodes
+/// + connect set, exact key) once - which of several equivalent histories represents it is the
+/// only thing left to timing, and nothing downstream depends on it (classification and
+/// scripts are functions of the DAG).
+fn explore_all(
+    fam: &Family,
+    consts: &[BF],
+    ctx: &Ctx,
+    stop_at: f64,
+    seen_keys: &SeenSet,
+    stats: &Stats,
+    on_canonical: &(dyn Fn(&Program, Materialized<BF>) + Sync),
+) {
+    let visit = |p: &Program| -> bool {
+        if ctx.used() >= stop_at {
+            stats.timed_out.store(true, Ordering::Relaxed);
+            return false;
+        }
+        stats.histories.fetch_add(1, Ordering::Relaxed);
+        let Ok(m) = materialize::<BF, BF>(p, consts) else {
+            stats.build_errors.fetch_add(1, Ordering::Relaxed);
+            return false;
+        };
+        if seen_keys.insert(h128(&m.key())) {
+            stats.canonical.fetch_add(1, Ordering::Relaxed);
+            on_canonical(p, m);
+        }
+        true
+    };
+    let mut units: Vec<(Program, EnumState)> = vec![];
+    for (p, st) in prefixes(fam, 1) {
+        if visit(&p) {
+            for c in next_calls(fam, &st) {
+                let mut q = p.clone();
+                q.calls.push(c.clone());
+                units.push((q, st.after(&c)));
+            }
+        }
+    }
+    units.par_iter().for_each(|(p, st)| {
+        if visit(p) {
+            walk(fam, p, st, &mut |q: &Program, _: &EnumState| visit(q));
+        }
+    });
 }
 
 /// First satisfying, fully defined input vector; vectors whose entries are pairwise distinct
@@ -922,9 +975,8 @@ fn main() {
     // enumeration may use the first 45 % of the budget (families in order, simplest first)
     for fam in fams.iter() {
         let stats = Stats::default();
-        let seen_prune = SeenSet::default();
         let t0 = ctx.elapsed_s();
-        explore::<BF, BF>(fam, &cs, &ctx, 0.45, &seen_keys, &seen_prune, &stats, &|_, _| {}, &|p, m| {
+        explore_all(fam, &cs, &ctx, 0.45, &seen_keys, &stats, &|p, m| {
             let Some((pubs, privs)) = find_baseline(&m) else {
                 no_baseline.fetch_add(1, Ordering::Relaxed);
                 return;
